@@ -11,6 +11,19 @@ COMMON_NOTE = ("Trusted base: Coq 8.16.1 kernel + vm_compute (no native_compute,
                "modelled, not verified. ")
 
 CLAIMED = {
+ "C03": dict(
+  text="Axiom-free theorems over Z about a hand model of minimum_supcell/supcell_gridgen/minimum_periodic/all_periodic (coq/model/Lattice.v): "
+       "the supercell box contains every lattice point in the sphere for any non-singular lattice, pbc mask and rational r^2 (Cauchy-Schwarz on the "
+       "reciprocal rows) and for any positive-definite metric (explicit sum-of-squares identities), the bound is exactly ceil(r sqrt(Ginv_ii)); "
+       "minimum_periodic returns, for EVERY input vector (inside, outside, far outside), an image of globally minimal length with the cell that "
+       "produces it; with exclude_self the shortest non-zero image; all_periodic returns exactly the images within the radius with source index "
+       "and cell (iff). Tied to the code by exact correspondence on integer inputs (6 lattice streams x 8 masks x vector mixes): images, cells, order "
+       "and bounds equal the model's vm_compute values; an independent exact brute-force oracle judges the implementation.",
+  note="Integer (scaled) inputs: squared lengths compared exactly. Float ceil inside minimum_supcell may be one larger exactly at integer "
+       "boundaries and np.round at exact half fractional coordinates is rounding-dependent: those cases are compared by length / as sets only. "
+       "LAPACK eigh inside minimum_supcell is exercised, not modelled. Three defects (F-03a/b/c) were found by this check and repaired (fix: f18a72a).",
+  technique="Coq proof (Z, lia/nia/ring, no axioms) of a hand model + exact differential correspondence (vm_compute) + brute-force oracle",
+  design="§8 C03"),
  "C01": dict(
   text="Theorems over the reals (Coq Reals) about _evals_sort REGENERATED from soprano/nmr/utils.py on every run: for all real triples and the four "
        "conventions the output is the input rearranged by the reported permutation and satisfies the defining chain (all tie patterns); the ordered "
